@@ -34,6 +34,10 @@ pub struct Node {
     pub location: Option<String>,
     pub form: &'static str,
     pub next: Next,
+    /// what follows the head of a redirecting response: 0 a complete small body, 1 fewer octets than
+    /// the Content-Length announces and then FIN, 2 a gzip label over something that is not gzip,
+    /// 3 an unfinished chunked body and then FIN.  The Location is all a client needs to go on.
+    pub body_flaw: u8,
 }
 
 pub struct Graph {
@@ -115,7 +119,11 @@ pub fn gen_graph(g: &mut G, max_len: usize) -> Graph {
             };
             let next_url = canon(&urlref::resolve(&cur, &loc));
             let next_idx = nodes.iter().position(|n| n.url == next_url).or(if next_url == cur { Some(nodes.len()) } else { None });
-            let n = Node { url: cur.clone(), status, location: Some(loc), form, next: Next::Node(next_idx.unwrap_or(nodes.len() + 1)) };
+            let body_flaw = if g.chance(1, 4) { 1 + g.below(3) as u8 } else { 0 };
+            if body_flaw != 0 {
+                g.probe("redirect-response-with-a-flawed-body");
+            }
+            let n = Node { url: cur.clone(), status, location: Some(loc), form, next: Next::Node(next_idx.unwrap_or(nodes.len() + 1)), body_flaw };
             nodes.push(n);
             if next_idx.is_some() {
                 g.probe("redirect-cycle");
@@ -142,7 +150,7 @@ pub fn gen_graph(g: &mut G, max_len: usize) -> Graph {
                 ),
                 _ => (200, Some("/ignored".into()), "final-with-location", Next::Final),
             };
-            nodes.push(Node { url: cur.clone(), status, location, form, next });
+            nodes.push(Node { url: cur.clone(), status, location, form, next, body_flaw: 0 });
         }
     }
     Graph { nodes }
@@ -189,7 +197,13 @@ pub fn node_response(n: &Node) -> Script {
         head.push_str(&format!("Location: {}\r\n", l));
     }
     let body = if n.status == 204 || n.status == 304 { String::new() } else { format!("node {}", n.url) };
-    head.push_str(&format!("Content-Length: {}\r\n\r\n{}", body.len(), body));
+    let followed = n.location.is_some() && FOLLOWED.contains(&n.status);
+    match (n.body_flaw, followed) {
+        (1, true) => head.push_str(&format!("Content-Length: {}\r\n\r\n{}", body.len() + 120, body)),
+        (2, true) => head.push_str(&format!("Content-Encoding: gzip\r\nContent-Length: {}\r\n\r\n{}", body.len(), body)),
+        (3, true) => head.push_str(&format!("Transfer-Encoding: chunked\r\n\r\n{:x}\r\n{}", body.len() + 7, body)),
+        _ => head.push_str(&format!("Content-Length: {}\r\n\r\n{}", body.len(), body)),
+    }
     let mut s = Script::default();
     s.acts.push(Act::Send(head.into_bytes()));
     s.acts.push(Act::Fin);
@@ -252,9 +266,15 @@ pub fn ip_of(host: &str) -> String {
 }
 
 pub fn scenario(g: &mut G, ctx: &RunCtx) -> RunReport {
-    let max = g.below(7) as u32;
+    let mut max = g.below(7) as u32;
     let follow = !g.chance(1, 6);
     let gr = gen_graph(g, (max as usize + 2).min(8));
+    // "unlimited" as callers write it - only over graphs without a cycle
+    let acyclic = gr.nodes.iter().enumerate().all(|(i, n)| !matches!(n.next, Next::Node(j) if j <= i));
+    if acyclic && g.chance(1, 8) {
+        max = *g.pick(&[u32::MAX, 1 << 31, (1 << 31) - 1, 100_000]);
+        g.probe("max-redirections-at-a-numeric-extreme");
+    }
     let default_max = g.chance(1, 6);
     let sim = Sim::new(ctx.sim_config());
     let seen = Arc::new(Mutex::new(Seen::default()));
